@@ -249,9 +249,12 @@ def check_add_slide(ctx, prs, layout, rng, label, lines, impl, metas):
         elif r_ < 0.6 and gotg == want and hasattr(ph, "rotation"):
             # one value at a time, in any order, rotation in between: what was not assigned keeps reporting the inherited value
             attrs = ["left", "top", "width", "height"]
-            steps = rng.sample(attrs + ["rotation"], rng.randint(1, 4))
+            steps = rng.sample(attrs + ["rotation"], rng.randint(1, 4)) + [rng.choice(attrs) for _ in range(rng.randint(0, 2))]
             cur = dict(zip(attrs, want))
             hist = []
+            o_ = lambda v: "n" if v is None else str(int(v))  # noqa: E731
+            inh = expected_geometry((None, None, None, None), ph.element.ph_idx, lay_rows, mas_rows)
+            m_ops, m_reads = [], []
             for a_ in steps:
                 v_ = rng.choice([0, 7, rng.randint(1, 10**6)])
                 try:
@@ -263,11 +266,18 @@ def check_add_slide(ctx, prs, layout, rng, label, lines, impl, metas):
                 if a_ != "rotation":
                     cur[a_] = v_
                 now = {x: getattr(ph, x) for x in attrs}
+                if a_ != "rotation":
+                    m_ops.append(f"{a_}:{v_}")
+                    m_reads.append("/".join(o_(now[x]) for x in attrs))
                 bad = {x: (now[x], cur[x]) for x in attrs if now[x] != cur[x] and not (cur[x] is None and now[x] in (0, None))}
                 if bad:
                     ctx.fail("override-geometry:partial", f"{label}/{layout.name}: placeholder idx={ph.element.ph_idx} after {hist}: "
                              f"{ {k: v[0] for k, v in bad.items()} } reported, expected { {k: v[1] for k, v in bad.items()} } (assigned or inherited)", case)
                     break
+            if m_ops:
+                # the own a:xfrm store against the Lean model of `_set_dimension` (setDim / runDims)
+                lines.append("c13.set %s %s %s" % ("/".join(o_(v) for v in own), "/".join(o_(v) for v in inh), ",".join(m_ops)))
+                impl.append(";".join(m_reads)); metas.append(dict(case, what="one dimension at a time", idx=ph.element.ph_idx))
             ctx.count("partial-override-histories")
     if list(prs.slides)[-1].slide_id != slide.slide_id or len(prs.slides) != n_before + 1:
         ctx.fail("slide-not-last", f"{label}/{layout.name}: new slide is not the last in presentation order", case)
